@@ -1,8 +1,4 @@
 CONSTANTS
-  Shapes <- Shapes22
-  RSet <- One
-  KeyMode = "before"
-  WalkMode = "reverse"
   ESet <- One
   Shapes1 <- Shapes22
   Shapes2 <- Shapes22
@@ -10,6 +6,8 @@ CONSTANTS
   RSet1 <- One
   RSet2 <- One
   RSet3 <- One
+  KeyMode = "before"
+  WalkMode = "reverse"
   NCases = 1000000
 INIT RandInit
 NEXT RandNext
